@@ -6,3 +6,5 @@ export GOFLAGS=-mod=mod GOPROXY=off GOSUMDB=off GOTOOLCHAIN=local
 mkdir -p bin evidence replays .cache
 (cd vsim && go1.26.8 build -o ../bin/vcheck ./cmd/vcheck)
 ./bin/vcheck build
+# determinism self-test: same seed, separate processes, GOMAXPROCS 1/4/16 -> identical event logs
+./bin/vcheck selftest
